@@ -322,7 +322,7 @@ func instrumentFile(cp *checkedPkg, name string, path string) (string, map[strin
 
 // buildConcScenario generates user.go, runs goderive, instruments
 // derived.gen.go, writes the harness and builds the explorer binary.
-func buildConcScenario(name string, userSrc, harnessSrc string) (bin string, counts map[string]int, inconclusive string, err error) {
+func buildConcScenario(name string, userSrc, harnessSrc, lang string) (bin string, counts map[string]int, inconclusive string, err error) {
 	dir := filepath.Join(scratchDir, "e3a", name)
 	files := pkgFiles{
 		"go.mod":    "module example.com/v\n\ngo 1.24\n\nrequire verifrt v0.0.0\n\nreplace verifrt => " + filepath.Join(verifDir, "rt") + "\n",
@@ -341,7 +341,7 @@ func buildConcScenario(name string, userSrc, harnessSrc string) (bin string, cou
 	if ierr != nil {
 		return "", nil, ierr.Error(), nil
 	}
-	writeFile(filepath.Join(dir, "p", "derived.gen.go"), out)
+	writeFile(filepath.Join(dir, "p", "derived.gen.go"), langConstraint(lang)+out)
 	if harnessSrc == "" {
 		return "", counts, "", nil
 	}
@@ -351,4 +351,14 @@ func buildConcScenario(name string, userSrc, harnessSrc string) (bin string, cou
 		return "", counts, "", fmt.Errorf("instrumented %s scenario does not build:\n%s\n--- instrumented derived.gen.go ---\n%s", name, tail(b.Stderr, 2500), head(out, 6000))
 	}
 	return filepath.Join(dir, "explore.bin"), counts, "", nil
+}
+
+// langConstraint makes the generated file compile under an older language
+// version than the scenario module's (a user module that still says go 1.21:
+// loop variables are shared between iterations there).
+func langConstraint(lang string) string {
+	if lang == "" {
+		return ""
+	}
+	return "//go:build " + lang + "\n\n"
 }
